@@ -268,6 +268,11 @@ func runBurst(c *fw.Ctx, idx int, r *fw.Rand) {
 		conf.Storage.Type = "file"
 		conf.Storage.Params = map[string]string{"path": dir}
 	}
+	// Added after seeded change C03-12: every third server is configured for STARTTLS (the replies
+	// then differ, the framing rule does not).  No draw from r.
+	if (idx/8)%3 == 1 && withTLS(c, conf) {
+		c.Count("burst_servers_tls_configured", 1)
+	}
 	env, err := sut.NewEnv(conf, backend)
 	if err != nil {
 		panic(err)
